@@ -20,6 +20,9 @@ def run(rep, prog, tier):
         if not q.startswith(netxf.NT + '::') or f.parent is not None: continue
         n += 1
         sm = eff.summ[q]
+        if getattr(f.node, 'name', '').startswith('_') and not getattr(f.node, 'name', '').startswith('__'):
+            # a private helper may work on an object its caller made for it: what it does to a caller's argument is charged to the public caller
+            rep.ob('R16.pure', q, True, 'private helper (its effects are accounted for in the summaries of its public callers)', f.site); continue
         if sm.mut:
             for p, s in sorted(sm.mut.items()):
                 rep.ob('R16.pure', f'{q}({p})', False, f'writes to the object passed as `{p}`: {s}', f.site)
